@@ -285,11 +285,12 @@ class CodecScenario:
             return K(repr(fa.v)) if isinstance(fa, K) and isinstance(fa.v, (str, int)) else K(py_repr(fa))
         if d == "json.dumps" and args:
             sk = kwargs.get("sort_keys", K(False))
-            return R("json", of=st.freeze(args[0]), sort_keys=sk)
+            doc = st.freeze(args[0])
+            return R("json", of=sort_doc(doc) if sk == K(True) else doc, sort_keys=sk)
         if d == "json.loads" and args:
             a = args[0]
             if isinstance(a, R) and a.kind == "json":
-                return thaw(a.fields["of"], st)
+                return thaw(a.fields["of"], st, a.fields.get("sort_keys") == K(True))
             if isinstance(a, K) and a.v == "null":
                 return K(None)
             st.pending = st.pending or "JSONDecodeError"
@@ -391,14 +392,32 @@ class CodecScenario:
         return ("return", o.freeze(o.term[1]))
 
 
-def thaw(v: Any, st: State) -> V:
-    """json.loads: rebuild mutable dicts/lists from a frozen json document."""
+def sort_doc(v: Any) -> Any:
+    """the document as json.dumps(..., sort_keys=True) writes it: the members of every object in sorted key order"""
     if isinstance(v, R) and v.kind == "dict":
-        return st.alloc("dict", {k: thaw(x, st) for k, x in v.fields["items"]})
+        items = [(k, sort_doc(x)) for k, x in v.fields["items"]]
+        if all(isinstance(k, K) and isinstance(k.v, str) for k, _ in items):
+            items.sort(key=lambda kv: kv[0].v)
+        return R("dict", items=tuple(items))
     if isinstance(v, R) and v.kind == "list":
-        return st.alloc("list", [thaw(x, st) for x in v.fields["items"]])
+        return R("list", items=tuple(sort_doc(x) for x in v.fields["items"]))
     if isinstance(v, K) and isinstance(v.v, tuple):
-        return st.alloc("list", [thaw(x, st) for x in v.v])
+        return K(tuple(sort_doc(x) for x in v.v))
+    return v
+
+
+def thaw(v: Any, st: State, sorted_keys: bool = False) -> V:
+    """json.loads: rebuild mutable dicts/lists from a frozen json document.  A document written with sort_keys=True lists
+    the members of every object in sorted key order, and that is the order of the dicts that come back."""
+    if isinstance(v, R) and v.kind == "dict":
+        items = list(v.fields["items"])
+        if sorted_keys and all(isinstance(k, K) and isinstance(k.v, str) for k, _ in items):
+            items.sort(key=lambda kv: kv[0].v)
+        return st.alloc("dict", {k: thaw(x, st, sorted_keys) for k, x in items})
+    if isinstance(v, R) and v.kind == "list":
+        return st.alloc("list", [thaw(x, st, sorted_keys) for x in v.fields["items"]])
+    if isinstance(v, K) and isinstance(v.v, tuple):
+        return st.alloc("list", [thaw(x, st, sorted_keys) for x in v.v])
     return v
 
 
